@@ -55,8 +55,16 @@ def run(ctx):
             pre = rnd.choice([('const', 0), ('and', ('var', 'a'), ('not', ('var', 'a'))), ('const', 1), ('or', ('var', 'b'), ('not', ('var', 'b')))])
             e = (rnd.choice(['and', 'or']), pre, inv) if rnd.random() < 0.7 else (rnd.choice(['and', 'or']), inv, pre)
             order = ['a', 'b', 'c', 'd']
-        cases.append({'op': 'build', 'notation': rnd.choice(['expr', 'lambda']), 'order': order, 'e': e,
+        pre = [(' & '.join(rnd.sample(V4, rnd.choice([2, 3, 4]))), rnd.sample(V4, 4))] if rnd.random() < 0.5 else []
+        cases.append({'op': 'build', 'notation': rnd.choice(['expr', 'lambda']), 'order': order, 'e': e, 'pre': pre,
                       'style': rnd.choice(['sym', 'kw', 'mix', 'chain']), 'seed': rnd.randrange(1 << 30)})
+    # zero variables: constant expressions with an empty ordering / an empty argument list
+    consts = [e for e in all_exprs(2, []) ]
+    for e in (rnd.sample(consts, min(len(consts), 120)) if q else consts):
+        for notation in ('expr', 'lambda'):
+            cases.append({'op': 'build', 'notation': notation, 'order': [], 'e': e, 'style': rnd.choice(['sym', 'kw', 'mix']), 'seed': rnd.randrange(1 << 30)})
+    cases.append({'op': 'build', 'notation': 'expr', 'order': [], 'e': ('var', 'a'), 'style': 'sym'})
+    cases.append({'op': 'build', 'notation': 'lambda', 'order': [], 'e': ('or', ('var', 'a'), ('const', 1)), 'style': 'kw'})
     events = bddfam.run_bool_events(ctx, cases)
     for e in events:
         o = e.get('out') or e.get('base') or {}
